@@ -7,7 +7,7 @@ CMN = "crates/compiler/src/common.rs"
 
 UNIT = Unit(
     name="U-CTORTY",
-    properties=["C03", "C06"],
+    properties=["C03", "C06", "C07"],
     rules=["attrs", ("strip", "tast::"), ("strip", "common::"), "iter_map_collect"],
     describe="env::TypeEnv::build_enum_constructor (whole): the constructor an enum variant's name denotes carries the enum's name, the variant's name and the variant's POSITION in "
              "the declaration (the tag the match compiler and the Go code switch on), and constructing with it has the type (the variant's declared payload types, in order) -> "
@@ -46,5 +46,9 @@ UNIT = Unit(
                if "generics" in header else
                (f"invariant __mi{mt.group(1)} <= struct_def.fields.len(), __mo{mt.group(1)}@.len() == __mi{mt.group(1)},\n"
                 f"  forall|j: int| 0 <= j < __mi{mt.group(1)} ==> (#[trigger] __mo{mt.group(1)}@[j]) == struct_def.fields@[j].1,\n decreases struct_def.fields.len() - __mi{mt.group(1)},")) if mt else None)(re.search(r"__mi(\d+)", header))),
+        Fn(file="crates/compiler/src/mono.rs", name="update_constructor_type", ret="r",
+           rewrites=[(re.compile(r"\.clone\(\)"), ".vclone()", "*")],
+           obligation="re-pointing a constructor at a monomorphic type keeps its kind, its variant and its tag; only the type's name changes",
+           contract="ensures ctor_updated(*constructor, *new_ty, r),"),
     ],
 )
